@@ -223,6 +223,16 @@ def k1_runnable(res, tier):
         r = e.call(f, [Ref(Cell(st.q))])
         some = e.fork_bool(_tag(r) == 1)
         if not some:
+            # completeness on a closed queue: every receive can now complete (a buffered value or nil), so a runnable receiver that
+            # waits on the queue must be found
+            closed = z3.Or(st.stt0 == st.S['Closed'], st.stt0 == st.S['ClosedEmpty'])
+            head, ln, arr = st.rw0
+            i = z3.BitVec('rw_pos', 64)
+            e.add_constraint(z3.ULT(i, ln))
+            from mirsym.values import TermBacking
+            w0 = e.materialise(WAITER, TermBacking(z3.Select(arr, head + i), st.rw.seq.tyname))
+            run0 = w0.data_cell(e).get(e).field(e, 0, 'bool').get(e)
+            e.check(z3.Not(z3.And(closed, z3.UGE(ln, 1), to_z3_bool(run0))), 'closed queue: a runnable receiver waiting on it is handed out (its receive can complete)')
             return {'result': 'None'}
         w = r.field(e, 'Some', 0, WAITER).get(e)
         from_send, _ = _came_from(e, st, w, 'send')
